@@ -240,8 +240,28 @@ fn probe_of_identity(identity: &[String]) -> Probe {
     }
 }
 
+/// how the style reaches delta and in which mode the site is rendered
+#[derive(Clone, Copy, Default)]
+struct Variant {
+    /// the option is set in the `[delta]` section of a git config file, not on the command line
+    via_gitconfig: bool,
+    /// the site is looked at in the side-by-side view (left panel / unique tokens only)
+    sbs: bool,
+    /// a syntax theme is on (a `normal` foreground must then stay the default; what `syntax` gives
+    /// is the theme's business and is not compared)
+    theme: bool,
+}
+
+fn gitconfig_value(style: &str) -> String {
+    format!("\"{}\"", style.replace('\\', "\\\\").replace('"', "\\\""))
+}
+
 /// Evaluate one (site, style string, colour mode) combination.
 fn eval_one(site: &Site, style: &str, truecolor: bool, ctx: &Ctx, roundtrip: bool) -> Result<bool, Failure> {
+    eval_variant(site, style, truecolor, ctx, roundtrip, Variant::default())
+}
+
+fn eval_variant(site: &Site, style: &str, truecolor: bool, ctx: &Ctx, roundtrip: bool, v: Variant) -> Result<bool, Failure> {
     let spec = match refstyle::parse_style(style, truecolor) {
         Some(s) => s,
         None => return Ok(false),
@@ -256,9 +276,19 @@ fn eval_one(site: &Site, style: &str, truecolor: bool, ctx: &Ctx, roundtrip: boo
         return Ok(false);
     }
     let input = input_for(site.probe);
-    let base = base_cfg(truecolor, site);
+    let mut base = base_cfg(truecolor, site);
+    if v.sbs {
+        base.flag("side-by-side");
+    }
+    if v.theme {
+        base.set("syntax-theme", "Monokai Extended");
+    }
     let mut cfg = base.clone();
-    cfg.set(site.option, style);
+    if v.via_gitconfig {
+        cfg.gitconfig = Some(format!("[delta]\n    {} = {}\n", site.option, gitconfig_value(style)));
+    } else {
+        cfg.set(site.option, style);
+    }
     let detail = |c: &Cfg| json!({"case": exec::case_json(c, &input), "option": site.option, "style": style, "true_color": truecolor});
     let run = |c: &Cfg| -> Result<Vec<u8>, Failure> { exec::run_cfg(c, ctx, &input).map_err(|f| f.with(detail(c))) };
     let out_base = run(&base)?;
@@ -273,6 +303,7 @@ fn eval_one(site: &Site, style: &str, truecolor: bool, ctx: &Ctx, roundtrip: boo
         _ => return Err(Failure::new("C12:site-not-found", format!("rendering site of {}=`{}` not found in the output", site.option, style)).with(detail(&cfg))),
     };
     let want = expected_sgr(&spec, bcells[0]);
+    let fg_open = v.theme && matches!(spec.fg, ColorSpec::Syntax | ColorSpec::Auto);
     // (non-emph styles are ignored by design when they equal the emph style)
     if site.option.ends_with("non-emph-style") {
         let emph_site = SITES.iter().find(|s| s.option == if site.option.starts_with("minus") { "minus-emph-style" } else { "plus-emph-style" }).unwrap();
@@ -283,10 +314,11 @@ fn eval_one(site: &Site, style: &str, truecolor: bool, ctx: &Ctx, roundtrip: boo
         }
     }
     for (i, c) in cells.iter().enumerate() {
+        let c = &if fg_open { Sgr { fg: want.fg, ..*c } } else { *c };
         if *c != want {
             return Err(Failure::new(
                 "C12:wrong-rendition",
-                format!("{}=`{}` ({}): the language says fg {:?} bg {:?} attrs {:#b}; character {} at the option's rendering site is painted {:?}", site.option, style, if truecolor { "24-bit" } else { "256 colours" }, want.fg, want.bg, want.attrs, i, c),
+                format!("{}=`{}` ({}{}{}): the language says fg {:?} bg {:?} attrs {:#b}; character {} at the option's rendering site is painted {:?}", site.option, style, if truecolor { "24-bit" } else { "256 colours" }, if v.via_gitconfig { ", set in a git config file" } else { "" }, if v.sbs { ", side-by-side" } else { "" }, want.fg, want.bg, want.attrs, i, c),
             )
             .with(detail(&cfg))
             .traits({
@@ -299,7 +331,7 @@ fn eval_one(site: &Site, style: &str, truecolor: bool, ctx: &Ctx, roundtrip: boo
         }
     }
     // round trip through --show-config
-    if roundtrip && site.shown {
+    if roundtrip && site.shown && !v.via_gitconfig {
         let sess = exec::session(&cfg, ctx)?;
         let shown = sess.show_config();
         let key = format!("{} ", site.option);
@@ -371,7 +403,7 @@ impl Prop for C12 {
     }
     fn cases(&self, tier: Tier) -> usize {
         match tier {
-            Tier::Quick => 5_000,
+            Tier::Quick => 16_000,
             Tier::Thorough => 120_000,
         }
     }
@@ -459,7 +491,18 @@ impl Prop for C12 {
         let style = gen_style(t, !(matches!(site.option, "commit-style" | "file-style") || site.option.starts_with("hunk-header")));
         let truecolor = t.coin();
         ctx.class(site.option);
-        match eval_one(site, &style, truecolor, ctx, true) {
+        // (drawn from a fork: the site and style of a case do not depend on it)
+        let mut vt = t.fork(3);
+        let mut v = Variant::default();
+        if my_probe == Probe::Diff && vt.chance(1, 2) {
+            v.via_gitconfig = vt.chance(2, 3);
+            v.sbs = matches!(site.option, "minus-style" | "minus-emph-style" | "minus-non-emph-style" | "plus-style" | "zero-style") && site.extra.is_empty() && vt.coin();
+            v.theme = v.sbs || vt.coin();
+            ctx.class_if(v.via_gitconfig, "style-from-git-config");
+            ctx.class_if(v.sbs, "site-in-side-by-side");
+            ctx.class_if(v.theme, "syntax-theme-on");
+        }
+        match eval_variant(site, &style, truecolor, ctx, true, v) {
             Ok(nt) => {
                 if nt {
                     ctx.nontrivial(fnv_add(fnv(style.as_bytes()), format!("{}{}", site.option, truecolor).as_bytes()));
